@@ -183,7 +183,7 @@ Qed.
 Lemma Inv_with_gdir : forall s g, Inv s -> Inv (with_gdir s g).
 Proof. intros s g H. exact H. Qed.
 
-Definition clean (s : st) : Prop := forall di k c, In (di, k, c) (dk s) -> exists x, c = FGood x.
+Definition clean (s : st) : Prop := forall di k c, In (di, k, c) (dk s) -> forall pe, c <> FBad pe.
 
 Lemma best_file_some : forall l n sig a, best_file n sig l (Some a) <> None.
 Proof.
@@ -245,29 +245,11 @@ Proof.
                 (forall e, oe' = Some e -> clean s -> False)).
       { intros s1' oe' E. unfold generate in E. inversion E; subst. split; [apply Hgen; apply honest_put; auto|].
         split; [|discriminate]. intros _. exists (ideal n sig). cbn. repeat split; auto. }
-      (* regenerate, knowing that when all files are good no sufficient one exists *)
-      assert (Hreg : forall s1' oe',
-                (clean s -> forall k c, In (k, c) (in_dir di (dk s)) -> snd k = sig -> fst k < n) ->
-                match old_basis n sig di (dk s) with
-                | Some (FGood x) => if n <? x_n x then (with_gdir s g, Some EValue) else generate
-                | Some FShape => (with_gdir s g, Some EValue)
-                | _ => generate
-                end = (s1', oe') ->
+      assert (Hreg : forall s1' oe', (clean s -> True) -> generate = (s1', oe') ->
                 Inv s1' /\
                 (oe' = None -> exists x, bs s1' = Some x /\ bs_prm s1' = Some (n, sig) /\ good_x x n sig) /\
                 (forall e, oe' = Some e -> clean s -> False)).
-      { intros s1' oe' Hsmall E. unfold old_basis in E.
-        destruct (find_file fkey_eqb di (n, sig) (dk s)) as [c0|]; [apply Hg1; auto|].
-        destruct (largest_file sig (in_dir di (dk s)) None) as [[k c]|] eqn:El; [|apply Hg1; auto].
-        destruct (largest_file_in _ _ _ _ _ El) as [Ha|[Hin Hs]]; [discriminate|].
-        pose proof (in_dir_In _ _ _ _ Hin) as Hin'. pose proof (Hh _ _ _ Hin') as Hc.
-        destruct c as [x|pe|].
-        - subst x. cbn [x_n ideal] in E. destruct (n <? fst k) eqn:En; [|apply Hg1; auto].
-          inversion E; subst s1' oe'. split; [apply Inv_with_gdir; auto|]. split; [discriminate|].
-          intros e _ Hcl. apply Nat.ltb_lt in En. specialize (Hsmall Hcl _ _ Hin Hs). lia.
-        - apply Hg1; auto.
-        - inversion E; subst s1' oe'. split; [apply Inv_with_gdir; auto|]. split; [discriminate|].
-          intros e _ Hcl. destruct (Hcl _ _ _ Hin') as [x Hx]. discriminate. }
+      { intros s1' oe' _ E. apply Hg1; auto. }
       destruct (pick n sig di (dk s)) as [[k c]|] eqn:Epk.
       * destruct (pick_spec _ _ _ _ _ _ Epk) as (Hk1 & Hk2 & Hk3). pose proof (Hh _ _ _ Hk3) as Hc.
         assert (Hnc : clean s -> forall x, c = FGood x \/ True) by auto.
@@ -282,16 +264,14 @@ Proof.
               split; [exact Hgx|]. split; exact I.
            ++ intros _. eexists. cbn [bs bs_prm set_bs]. split; [reflexivity|]. split; [reflexivity|exact Hgx].
         -- inversion He; subst. split; [apply Inv_with_gdir; auto|]. split; [discriminate|].
-           intros e _ Hcl. destruct (Hcl _ _ _ Hk3) as [x Hx]. discriminate.
-        -- eapply Hreg; [|exact He]. intros Hcl. destruct (Hcl _ _ _ Hk3) as [x Hx]. discriminate.
+           intros e _ Hcl. exact (Hcl _ _ _ Hk3 _ eq_refl).
+        -- eapply Hreg; [|exact He]. auto.
         -- inversion He; subst. split; [apply Inv_with_gdir; auto|]. split; [discriminate|].
-           intros e _ Hcl. destruct (Hcl _ _ _ Hk3) as [x Hx]. discriminate.
+           intros e _ Hcl. exact (Hcl _ _ _ Hk3 _ eq_refl).
         -- inversion He; subst. split; [apply Inv_with_gdir; auto|]. split; [discriminate|].
-           intros e _ Hcl. destruct (Hcl _ _ _ Hk3) as [x Hx]. discriminate.
-        -- eapply Hreg; [|exact He]. intros Hcl. destruct (Hcl _ _ _ Hk3) as [x Hx]. discriminate.
-      * eapply Hreg; [|exact He]. intros _.
-        unfold pick in Epk. destruct (find_file fkey_eqb di (n, sig) (dk s)); [discriminate|].
-        apply best_file_none; auto.
+           intros e _ Hcl. exact (Hcl _ _ _ Hk3 _ eq_refl).
+        -- eapply Hreg; [|exact He]. auto.
+      * eapply Hreg; [|exact He]. auto.
     + inversion He; subst. split; [apply Hgen; auto|]. split; [|discriminate].
       intros _. exists (ideal n sig). cbn. repeat split; auto.
 Qed.
@@ -406,7 +386,6 @@ Proof.
     { revert Ee. unfold ensure_bs. destruct (bs_hit s n sig); [intros E; inversion E; subst; auto|].
       destruct (resolve (gdir s) bd) as [g dir]. destruct dir as [d1|].
       - destruct (dir_writable d1); destruct (pick n sig d1 (dk s)) as [[k1 [x1|[]|]]|];
-          destruct (old_basis n sig d1 (dk s)) as [[x2|e2|]|]; try destruct (n <? x_n x2);
           intros E; inversion E; subst; cbn [dk set_bs with_gdir]; intros Hi;
           first [ left; exact Hi
                 | destruct Hi as [Hi|Hi];
@@ -436,9 +415,9 @@ Qed.
 Lemma step_clean : forall s o s' r, clean s -> damage o = false -> hazard s o = false ->
   step s o = (s', r) -> clean s'.
 Proof.
-  intros s o s' r Hc Hd Hz Hs di k c Hin.
-  destruct (step_dk _ _ _ _ Hs _ _ _ Hin) as [H|[H|(d0 & k0 & ->)]]; eauto.
-  cbn [damage] in Hd. destruct c; eauto; discriminate.
+  intros s o s' r Hc Hd Hz Hs di k c Hin pe.
+  destruct (step_dk _ _ _ _ Hs _ _ _ Hin) as [H|[[x ->]|(d0 & k0 & ->)]]; [eauto|discriminate|].
+  cbn [damage] in Hd. destruct c; try discriminate.
 Qed.
 
 Lemma history_independent_from : forall ops s,
